@@ -25,13 +25,17 @@ def impl_line(opts, cmd, data, outs):
     return "xrun %s %s %s %s" % (hexlist([o.encode() for o in opts]), hexlist(cmd), fw.hexs(data), ",".join(outs) if outs else "~")
 
 
-def model_line(n, L, s, x, r, cmd, toks, ierr, outs, replace=False, env=None, arg_max=None):
+def model_line(n, L, s, x, r, cmd, toks, ierr, outs, replace=False, env=None, arg_max=None, repl_R=None):
     env = ENV if env is None else env
+    rep = str(int(replace))
+    if replace and repl_R is not None and cmd:
+        # how the lengths change when a line is put in: |R| and the (leftmost, non-overlapping) occurrences in each word
+        rep = "1:%d:%s" % (len(repl_R), ".".join(str(0 if i == 0 or not repl_R else c.count(repl_R)) for i, c in enumerate(cmd)))
     envs = ",".join("%d:%d" % (len(k.encode()), len(v.encode())) for k, v in env.items()) or "~"
     f = lambda v: "-" if v is None else str(v)
-    return "xargs %s %s %s %d %d %d %s %s %d %s %d %s" % (
+    return "xargs %s %s %s %d %d %d %s %s %s %s %d %s" % (
         f(n), f(L), f(s), int(x), int(r), arg_max or ARG_MAX, envs,
-        ",".join(str(len(c)) for c in cmd) if cmd else "~", int(replace),
+        ",".join(str(len(c)) for c in cmd) if cmd else "~", rep,
         ",".join("%d:%s" % (len(w), k) for w, k in toks) if toks else "~", int(ierr),
         ",".join(outs) if outs else "~")
 
